@@ -64,6 +64,9 @@ Inductive kind :=
 | KIgnoreWc              (* the same with --ignore-working-copy *)
 | KUpdateStale           (* jj workspace update-stale *)
 | KWorkspaceAdd (nw : N) (* jj workspace add *)
+| KAtOp (x : nat)        (* any command with --at-op=x (x not the head symbol) *)
+| KMerge                 (* first half of a command that finds several operation heads:
+                            the "reconcile divergent operations" operation *)
 | KEdit.                 (* not a command: the user edits files of the workspace *)
 
 Record event := mk_event {
@@ -210,26 +213,32 @@ Definition exp_present (st : state) (ev : event) (h : nat) (ws : wsst) : option 
       end
   end.
 
-(** [jj workspace update-stale] ([recover_stale_working_copy_impl]). *)
-Definition exp_update_stale (st : state) (ev : event) (h : nat) (ws : wsst) : option res :=
+(** [jj workspace update-stale] ([recover_stale_working_copy_impl]): snapshot on the working
+    copy's own operation, then reload: if that leaves several heads (the snapshot operation next
+    to the others) they are merged; then the desired commit is checked out if needed. *)
+Definition exp_update_stale (st : state) (ev : event) (ws : wsst) : option res :=
   let ops := s_ops st in
   let w := e_ws ev in
   let d := w_disk ws in
   let allops := ops ++ e_ops ev in
   let o := w_op ws in
-  (* snapshot on the working copy's own operation *)
   match snapshot_phase ops o w d (e_ops ev) with
   | None => None
   | Some (cur, rest, idx) =>
-      (* divergent operations (head and the snapshot) are merged on reload *)
-      let need_merge := negb (Nat.eqb cur o) && negb (Nat.eqb o h) in
+      let heads1 :=
+        if Nat.eqb cur o then s_heads st
+        else filter (fun k => negb (Nat.eqb k o)) (s_heads st) ++ [cur] in
+      (* further operations may follow in a colocated workspace (Git HEAD reset / ref import) *)
       let top :=
-        if need_merge then
-          match rest with
-          | [M] => if seteqn (o_par M) [h; cur] then Some idx else None
-          | _ => None
-          end
-        else if is_nil rest then Some (if Nat.eqb cur o then h else cur) else None in
+        match heads1 with
+        | [k] => if chain_from k idx rest then Some (last_op k idx rest) else None
+        | _ => match rest with
+               | M :: extra =>
+                   if seteqn (o_par M) heads1 && chain_from idx (S idx) extra
+                   then Some (last_op idx (S idx) extra) else None
+               | [] => None
+               end
+        end in
       match top with
       | None => None
       | Some L' =>
@@ -249,28 +258,52 @@ Definition exp_update_stale (st : state) (ev : event) (h : nat) (ws : wsst) : op
 Definition expected_res (st : state) (ev : event) : option res :=
   let ops := s_ops st in
   let w := e_ws ev in
-  match s_heads st, lookupN w (s_ws st) with
-  | [h], Some ws =>
+  match lookupN w (s_ws st) with
+  | None => None
+  | Some ws =>
     match e_kind ev with
     | KEdit =>
         match lookupN w (e_ws_post ev) with
         | Some ws' =>
             if is_nil (e_ops ev) && N.eqb (w_tree ws') (w_tree ws) && Nat.eqb (w_op ws') (w_op ws)
-            then Some ([h], Some ws', []) else None
+            then Some (s_heads st, Some ws', []) else None
         | None => None
         end
+    | KMerge =>
+        (* op_heads_store::resolve_op_heads: several heads are merged into one operation *)
+        match s_heads st, e_ops ev with
+        | _ :: _ :: _, [M] =>
+            if seteqn (o_par M) (s_heads st) then Some ([length ops], None, []) else None
+        | _, _ => None
+        end
+    | KAtOp x =>
+        (* loaded at operation [x]: neither snapshot nor checkout; a new operation becomes
+           an additional head *)
+        if (x <? length ops) && chain_from x (length ops) (e_ops ev)
+        then Some (if is_nil (e_ops ev) then s_heads st
+                   else filter (fun k => negb (Nat.eqb k x)) (s_heads st)
+                        ++ [last_op x (length ops) (e_ops ev)],
+                   None, [])
+        else None
+    | KUpdateStale => exp_update_stale st ev ws
     | KIgnoreWc =>
         (* neither snapshot nor checkout *)
-        if chain_from h (length ops) (e_ops ev)
-        then Some (heads_after st ev (last_op h (length ops) (e_ops ev)), None, []) else None
-    | KNormal | KWorkspaceAdd _ =>
-        match tree_of ops h w with
-        | None => exp_absent st ev h ws
-        | Some _ => exp_present st ev h ws
+        match s_heads st with
+        | [h] =>
+            if chain_from h (length ops) (e_ops ev)
+            then Some (heads_after st ev (last_op h (length ops) (e_ops ev)), None, []) else None
+        | _ => None
         end
-    | KUpdateStale => exp_update_stale st ev h ws
+    | KNormal | KWorkspaceAdd _ =>
+        match s_heads st with
+        | [h] =>
+            match tree_of ops h w with
+            | None => exp_absent st ev h ws
+            | Some _ => exp_present st ev h ws
+            end
+        | _ => None
+        end
     end
-  | _, _ => None
   end.
 
 Definition apply_res (st : state) (w : N) (r : res) : list nat * list (N * wsst) :=
